@@ -8,7 +8,7 @@ KINDS = ["t4", "t6", "un"]
 
 
 def gen_scenario(rng, flavour=None):
-    fl = flavour or rng.choice(["servers", "servers", "servers", "ipc", "ipcbig", "connect", "mixed"])
+    fl = flavour or rng.choice(["servers", "servers", "servers", "ipc", "ipcbig", "connect", "mixed", "cscript", "backlog"])
     L = []
     meta = {"drained": set(), "fl": fl}
     if fl in ("servers", "mixed"):
@@ -50,6 +50,33 @@ def gen_scenario(rng, flavour=None):
         k = rng.choice([1, 2, 5, 8, 9, 10, 12, 17, 20, 30])
         kinds = "".join(rng.choice("tpu") for _ in range(k))
         L.append(f"ipc {kinds} {rng.choice(['late', 'late', 'imm', '2', '3', '5'])}")
+    if fl == "cscript":
+        # connect(2) of uv clients answers every non-success code libuv distinguishes, for tcp and pipe:
+        # 1 = the real call (0 / EINPROGRESS / whatever the kernel says), -4 = EINTR then retry, others fail outright
+        ns = rng.range(1, 2)
+        for s_ in range(ns):
+            L.append(f"server {s_} {rng.choice(KINDS)} {rng.choice(['imm', 'imm', 'defer'])}")
+        for c in range(rng.range(2, 8)):
+            codes = [-4] * rng.choice([0, 0, 1, 3]) + [rng.choice([1, 1, -11, -111, -2, -13, -99, -115 if False else -104, -110, -101])]
+            L.append("cscript " + " ".join(map(str, codes)))
+            L.append(f"uvc {c} {rng.below(ns)}")
+            if rng.chance(1, 8): L.append(f"closecli {c}")
+            if rng.chance(1, 3): L.append("run 1")
+        L.append("run 3")
+        for s_ in range(ns):
+            L.append(f"drain {s_}"); meta["drained"].add(s_)
+    if fl == "backlog":
+        # Unix-socket (and tcp) server with a tiny listen backlog, burst of uv clients, accept deferred:
+        # non-blocking AF_UNIX connect() answers EAGAIN when the backlog is full
+        kind = rng.choice(["un", "un", "un", "t4"])
+        L.append(f"server 0 {kind} defer {rng.choice([0, 1, 2])}")
+        nc = rng.range(3, 9)
+        for c in range(nc):
+            L.append(f"uvc {c} 0")
+            if rng.chance(1, 5): L.append("run 1")
+        L.append("run 3")
+        if kind == "un":
+            L.append("drain 0"); meta["drained"].add(0)
     if fl == "ipcbig":
         # uv_write2 carrying a handle AND a payload that needs several syscalls: short transfers scripted per
         # syscall on the sending descriptor (cap in bytes, -11 = EAGAIN, 0 = whatever the kernel takes), or a
@@ -95,6 +122,11 @@ def sim_monitor(prog, meta, out):
     for o in out:
         w = o.split()
         if w[0] == "server" and kv(o)["r"] != "0": unavailable.add(int(w[1]))
+        if w[0] == "concb" and "peer" in kv(o):
+            d = kv(o)
+            if d["status"] == "0" and d["peer"] != "1":
+                return ("connect-status-0-not-connected", f"connect callback of client {w[1]} reported status 0 but the socket has no peer (getpeername fails)")
+            # (an error status on a socket that still has a peer is legitimate: established, then reset before the callback)
         if w[0] == "conncb":
             if kv(o)["status"] != "0": return ("conncb-status", f"connection_cb status {o}")
             pend[int(w[1])] = pend.get(int(w[1]), 0) + 1
@@ -325,6 +357,36 @@ def model_diff(ctx, prog, out):
                 r = int(d[key]); impl = f"refuse {r}" if r < 0 else "pass"
                 if impl != m:
                     return f"{fn} {w[1]} {w[2]}: impl {impl} model {m}"
+    # uv clients: the observed connect(2) / SO_ERROR results drive the connect model; return value and callbacks must agree
+    ev = {}
+    for o in out:
+        w = o.split(); d = kv(o)
+        if w[0] == "sys" and w[1] == "connect": ev.setdefault(int(d["cid"]), []).append(("connect", int(d["ret"])))
+        elif w[0] == "sys" and w[1] == "soerror": ev.setdefault(int(d["cid"]), []).append(("so", int(d["val"])))
+        elif w[0] == "uvc" and "kind" in d: ev.setdefault(int(w[1]), []).append(("ret", int(d["r"]), d["kind"]))
+        elif w[0] == "concb": ev.setdefault(int(w[1]), []).append(("cb", int(d["status"])))
+        elif w[0] == "closecli" and int(w[1]) in ev: ev[int(w[1])].append(("close",))
+    for c, es in ev.items():
+        rets = [e for e in es if e[0] == "ret"]
+        if not rets: continue
+        conns = [e[1] for e in es[:es.index(rets[0])] if e[0] == "connect" and e[1] != -4]
+        if not conns: continue            # refused before connect(2) (not produced by the generator)
+        q = [f"tcp 0 {conns[-1]}" if rets[0][2] == "tcp" else f"pipe 0 0 {conns[-1]}"]
+        so, closed, impl_cbs = 0, False, []
+        for e in es[es.index(rets[0]) + 1:]:
+            if e[0] == "so": so = e[1]
+            elif e[0] == "close" and not closed: q += ["close", "destroy"]; closed = True
+            elif e[0] == "cb":
+                impl_cbs.append(str(e[1]))
+                if not closed and e[1] == -125: q += ["close", "destroy"]; closed = True     # harness teardown closed the handle
+                elif not closed: q.append(f"io {so}")
+        fin = next((kv(o) for o in out if o.startswith(f"final {c} ")), None)
+        if fin and not closed and int(fin["cbs"]) > len(impl_cbs) : q += ["close", "destroy"]
+        if fin and int(fin["cbs"]) > len(impl_cbs): impl_cbs.append(fin["status"])
+        mo = ctx.driver(["connect"], "\n".join(q) + "\n").splitlines()
+        mret = mo[0].split()[1]; mcbs = [x.split()[2] for x in mo[1:] if x.startswith("cb")]
+        if mret != str(rets[0][1]) or mcbs != impl_cbs:
+            return f"uv client {c} ({rets[0][2]}), connect(2) -> {conns[-1]}: impl ret={rets[0][1]} callbacks={impl_cbs}  model ret={mret} callbacks={mcbs}"
     # failing connects
     for l in prog:
         w = l.split()
@@ -395,6 +457,9 @@ def one(ctx, exe, prog, meta, diff=True):
     partial = sum(1 for o in out if o.startswith("tx ") and 0 <= int(kv(o)["ret"]) < int(kv(o)["asked"]))
     ctx.notes["sim_partial_sends_with_handle_requests"] = ctx.notes.get("sim_partial_sends_with_handle_requests", 0) + partial
     failed = any(o.startswith("final") and kv(o)["status"] != "0" for o in out)
+    for o in out:
+        if o.startswith("sys connect"):
+            k = "sim_connect_results"; ctx.notes.setdefault(k, {}); r = kv(o)["ret"]; ctx.notes[k][r] = ctx.notes[k].get(r, 0) + 1
     if deferred or bigq or failed or partial:
         ctx.nontrivial("S" + hashlib.sha1("\n".join(out).encode()).hexdigest()[:12])
     for k, v in (("sim_deferred_accept_cases", deferred), ("sim_ipc_queue_gt8_cases", bigq), ("sim_failed_connect_cases", failed),
@@ -412,6 +477,9 @@ FIXED = [
     (["server 0 t6 imm", "inject 24", "raw 0 0", "raw 1 0", "run 2", "raw 2 0", "run 2", "inject 23", "raw 3 0", "run 2", "raw 4 0", "run 2", "end"], set()),
     (["dblconnect 100 101", "run 3", "end"], set()),
     (["ipcbig tpu 10 4 -11 3 0 2 2", "end"], set()),
+    (["server 0 un defer 0", "uvc 0 0", "uvc 1 0", "uvc 2 0", "uvc 3 0", "uvc 4 0", "run 3", "drain 0", "end"], {0}),
+    (["server 0 un imm", "server 1 t4 imm", "cscript -4 -4 1", "uvc 0 1", "cscript -13", "uvc 1 1", "cscript -13", "uvc 2 0", "cscript -111", "uvc 3 1",
+      "cscript -11", "uvc 4 1", "cscript -11", "uvc 5 0", "cscript -2", "uvc 6 0", "cscript -99", "uvc 7 0", "cscript -4 1", "uvc 8 0", "run 3", "end"], set()),
     (["ipcbig tp 300000", "end"], set()),
     (["badconnect 100 tcp", "badconnect 101 pipe", "badconnect 102 long", "badconnect 103 longnt", "badconnect 104 tcp close", "badconnect 105 pipe close", "run 3", "wcheck", "end"], set()),
 ]
